@@ -161,9 +161,12 @@ func (parser *syslogParser) Parse(input []byte, timestamp time.Time) *base.LogRe
 	// all the rest of message goes to the "log" message field
 	if len(remaining) > defs.InputLogMaxMessageBytes {
 		parser.onOverflow(input)
-		remaining = remaining[:defs.InputLogMaxMessageBytes]
-	}
-	if record.RawLength >= defs.InputLogMaxRecordBytes {
+		// cut and clean up the end, as a multi-byte UTF-8 sequence may be cut in the middle
+		remaining = util.StringFromBytes(
+			util.CleanUTF8(util.BytesFromString(remaining[:defs.InputLogMaxMessageBytes])),
+		)
+	} else if record.RawLength >= defs.InputLogMaxRecordBytes {
+		// the record itself may have been cut in the middle by the line reader
 		remaining = util.StringFromBytes(
 			util.CleanUTF8(util.BytesFromString(remaining)),
 		)
